@@ -4,7 +4,7 @@ use crate::ctx::{guarded, Ctx, Tier};
 use crate::Check;
 use refmodel::decode::{decode, decode_key, decode_value, Verdict};
 use refmodel::rng::{hash_bytes, Rng};
-use refmodel::rval::RVal;
+use refmodel::rval::{KeyOrder, RVal};
 use std::str::FromStr;
 use toml_write::{ToTomlKey, ToTomlValue, TomlKeyBuilder, TomlStringBuilder};
 
@@ -189,6 +189,12 @@ impl C10 {
                 None => ctx.count(&format!("refused/key-{style}")),
             }
         }
+        // the serde layers write keys and strings too: as a map key, as the (renamed) name of a
+        // struct field, as a string value. Short strings always, longer ones one time in sixteen
+        // (every distinct field name is kept alive for the rest of the process).
+        if s.chars().count() <= 3 || hash_bytes(s.as_bytes()) % 16 == 0 {
+            self.serde_routes(ctx, s);
+        }
         let mut run = 0;
         let mut maxrun = 0;
         for c in s.chars() {
@@ -200,6 +206,66 @@ impl C10 {
             }
         }
         ctx.max("longest-quote-run", maxrun);
+    }
+}
+
+impl C10 {
+    fn serde_routes(&mut self, ctx: &mut Ctx, s: &str) {
+        use crate::gdyn::{Dyn, Ser, Shape};
+        let want_key = RVal::table(vec![(s.to_string(), RVal::Int(1))]);
+        let want_val = RVal::table(vec![("k".to_string(), RVal::Str(s.to_string()))]);
+        let r = guarded(|| {
+            let mut m = std::collections::BTreeMap::new();
+            m.insert(s.to_string(), 1i64);
+            let mut sv = std::collections::BTreeMap::new();
+            sv.insert("k".to_string(), s.to_string());
+            let name = crate::c13::intern(s);
+            let shape = Shape::Struct("S", vec![(name, Shape::I64)]);
+            let val = Dyn::Fields(vec![Dyn::I(1)]);
+            let mut outs: Vec<(&'static str, Result<String, String>, bool)> = Vec::new();
+            outs.push(("map key/toml::to_string", toml::to_string(&m).map_err(|e| e.to_string()), true));
+            outs.push(("map key/toml::to_string_pretty", toml::to_string_pretty(&m).map_err(|e| e.to_string()), true));
+            outs.push(("map key/toml_edit::ser::to_string", toml_edit::ser::to_string(&m).map_err(|e| e.to_string()), true));
+            outs.push(("map key/Table::try_from + Display", toml::Table::try_from(&m).map(|t| t.to_string()).map_err(|e| e.to_string()), true));
+            outs.push(("field name/toml::to_string", toml::to_string(&Ser(&shape, &val)).map_err(|e| e.to_string()), true));
+            outs.push(("field name/toml::to_string_pretty", toml::to_string_pretty(&Ser(&shape, &val)).map_err(|e| e.to_string()), true));
+            outs.push(("field name/toml_edit::ser::to_string", toml_edit::ser::to_string(&Ser(&shape, &val)).map_err(|e| e.to_string()), true));
+            outs.push(("field name/toml_edit::ser::to_string_pretty", toml_edit::ser::to_string_pretty(&Ser(&shape, &val)).map_err(|e| e.to_string()), true));
+            outs.push(("field name/Table::try_from + Display", toml::Table::try_from(Ser(&shape, &val)).map(|t| t.to_string()).map_err(|e| e.to_string()), true));
+            outs.push(("string value/toml::to_string", toml::to_string(&sv).map_err(|e| e.to_string()), false));
+            outs.push(("string value/toml::to_string_pretty", toml::to_string_pretty(&sv).map_err(|e| e.to_string()), false));
+            outs.push(("string value/toml_edit::ser::to_string", toml_edit::ser::to_string(&sv).map_err(|e| e.to_string()), false));
+            outs
+        });
+        let outs = match r {
+            Ok(o) => o,
+            Err((loc, msg)) => {
+                ctx.violation(&format!("panic:{}", crate::short_loc(&loc)), format!("a serializer panicked at {loc}: {msg}"));
+                return;
+            }
+        };
+        for (route, text, is_key) in outs {
+            let text = match text {
+                Ok(t) => t,
+                Err(e) => {
+                    ctx.violation(&format!("serde-writer-refuses:{route}"), format!("{route} refuses the string {s:?}: {e}"));
+                    continue;
+                }
+            };
+            ctx.count(&format!("serde-written/{}", route.split('/').next().unwrap_or("")));
+            let d = refmodel::decode::decode(&text);
+            let want = if is_key { &want_key } else { &want_val };
+            match (&d.verdict, &d.tree) {
+                (refmodel::decode::Verdict::Valid, Some(t)) => {
+                    // a multi-line string written with a raw CR LF may be read either way
+                    let ok = want.diff(t, KeyOrder::Any).is_none() || d.tree_nl.as_ref().map_or(false, |t2| want.diff(t2, KeyOrder::Any).is_none());
+                    if !ok {
+                        ctx.violation(&format!("serde-written-text-decodes-differently:{route}"), format!("{route} wrote {text:?} for {s:?}; it decodes to {}", t.show()));
+                    }
+                }
+                (v, _) => ctx.violation(&format!("serde-written-text-invalid:{route}"), format!("{route} wrote {text:?} for {s:?}: {v:?}")),
+            }
+        }
     }
 }
 
